@@ -3366,6 +3366,14 @@ def _symbol_types(tu, exprs, loc):
 def _desc_layout(tu):
     """(size of struct l1s_h1, offset of each field, size of each field) with natural alignment of its integer members"""
     off, offs, sizes, align = 0, {}, {}, 1
+    rec = tu.records.get(DESC)
+    if rec is not None and any(kind(c) == "FieldDecl" and c.get("isBitfield") for c in kids(rec)):
+        # bit-field members: the byte machine's placement (every bit-field alone in its bytes), or no layout at all
+        bm = _ByteMachine(tu)
+        size, _a, fields = bm.layout(rec)
+        if size is None or any(o is None or d is None for o, d, _n in fields.values()):
+            raise AnalysisError("struct %s: bit-field members that share bytes; the layout is unclassifiable" % DESC)
+        return size, {n: o for o, d, n in fields.values()}, {n: bm.sizeof(d)[0] for o, d, n in fields.values()}
     for name, qt in tu.record_fields(DESC):
         sz = type_size(qt)
         el = type_size(re.sub(r"\s*\[\d+\]", "", qt or ""))
@@ -3666,6 +3674,19 @@ class _Flow(Exception):
         self.what, self.value = what, value
 
 
+class _DivisionByZero(AnalysisError):
+    def __init__(self, msg, expr):
+        AnalysisError.__init__(self, msg)
+        self.expr = expr
+
+
+def bitfield_width(tu, fd):
+    """width of a bit-field FieldDecl, by value (clang: the width is the ConstantExpr child of the declaration); None when
+    it does not fold"""
+    ws = [w for w in (tu.fold(c) for c in kids(fd) if kind(c).endswith(("Expr", "Literal", "Operator"))) if isinstance(w, int)]
+    return ws[0] if len(ws) == 1 and ws[0] >= 0 else None
+
+
 class _ByteMachine:
     """Concrete evaluation of a small C function over a byte memory (constant folding of ONE point of a finite scenario
     space): objects are regions of little-endian bytes laid out with natural alignment of their integer members (the
@@ -3745,10 +3766,27 @@ class _ByteMachine:
         self.layouts[id(rec)] = (None, 1, {})        # a record containing itself by value does not exist; pointers are scalars
         union = rec.get("tagUsed") == "union"
         off, align, size, fields = 0, 1, 0, {}
+        bits = self._bitfields(rec)
+        bit = 0                                  # bit cursor inside the run of bit-fields that ends at byte `off`
         for i, c in enumerate(kids(rec)):
             if kind(c) != "FieldDecl":
                 continue
             d = None if c.get("isBitfield") else self.tdesc(c.get("type"), (rec, i))
+            if c.get("isBitfield") and bits is not None and off is not None and not union:
+                # System V / AAPCS placement: at the next bit unless the member would straddle a storage unit of its
+                # declared type; the machine models a bit-field that starts a byte and shares its bytes with no other
+                # member (loads / stores see `width` bits), any other one stays an object of unknown size
+                unit, signed, width = bits[c.get("id")]
+                start = bit if bit else off * 8
+                if width == 0 or start // (8 * unit) != (start + width - 1) // (8 * unit):
+                    start = (start + 8 * unit - 1) // (8 * unit) * (8 * unit)
+                if width:
+                    fields[c.get("id")] = (start, width, unit, signed, c.get("name"))
+                bit = start + width
+                off = (bit + 7) // 8
+                size, align = off, max(align, unit)
+                continue
+            bit = 0
             s, a = self.sizeof(d)
             if s is None or off is None:
                 fields[c.get("id")] = (None, d, c.get("name"))
@@ -3764,10 +3802,32 @@ class _ByteMachine:
                 off += s
                 size = off
             align = max(align, a)
+        placed = [(k, v) for k, v in fields.items() if len(v) == 5]
+        for k, (start, width, unit, signed, name) in placed:
+            mine = set(range(start // 8, (start + width + 7) // 8))
+            shared = any(k2 != k and mine & set(range(v[0] // 8, (v[0] + v[1] + 7) // 8)) for k2, v in placed)
+            if start % 8 == 0 and not shared and size is not None:
+                fields[k] = (start // 8, ("int", len(mine), signed, width), name)
+            else:
+                fields[k] = (None, None, name)
+                size = None
         if size is not None:
             size = (size + align - 1) // align * align
         self.layouts[id(rec)] = (size, align, fields)
         return self.layouts[id(rec)]
+
+    def _bitfields(self, rec):
+        """{FieldDecl id: (bytes of the declared type, signed, width)} of the bit-field members of a record; None when one
+        of them has a type or a width the machine cannot fold"""
+        out = {}
+        for i, c in enumerate(kids(rec)):
+            if kind(c) == "FieldDecl" and c.get("isBitfield"):
+                d = self.tdesc(c.get("type"), (rec, i))
+                w = bitfield_width(self.tu, c)
+                if d is None or d[0] != "int" or w is None or w > 8 * d[1]:
+                    return None
+                out[c.get("id")] = (d[1], d[2], w)
+        return out
 
     def flat_fields(self, rec, base=0):
         """{member name: (offset, descriptor)} of a record, the members of anonymous struct / union members included"""
@@ -3809,7 +3869,9 @@ class _ByteMachine:
             if not all(isinstance(b, int) for b in bs):
                 raise AnalysisError("byte machine: an integer is read from the bytes of a pointer; unclassifiable")
             v = sum(b << (8 * i) for i, b in enumerate(bs))
-            return v - (1 << (8 * d[1])) if d[2] and v >= 1 << (8 * d[1] - 1) else v
+            w = d[3] if len(d) > 3 else 8 * d[1]           # a bit-field holds `w` bits (padding bits are not part of the value)
+            v &= (1 << w) - 1
+            return v - (1 << w) if d[2] and v >= 1 << (w - 1) else v
         size = self.sizeof(d)[0]
         if size is None:
             raise AnalysisError("byte machine: an object of unknown size is read; unclassifiable")
@@ -3837,6 +3899,8 @@ class _ByteMachine:
                 self.mem[(region, off + i)] = ("cont",)
             return
         size = 4 if d[0] == "ptr" else d[1]
+        if d[0] == "int" and len(d) > 3:
+            v &= (1 << d[3]) - 1                           # the store into a bit-field keeps its low `width` bits
         for i in range(size):
             self.mem[(region, off + i)] = (v >> (8 * i)) & 0xFF
 
@@ -4074,7 +4138,9 @@ class _ByteMachine:
         a, b = self._int(a, n), self._int(b, n)
         if op in ("/", "%"):
             if b == 0:
-                raise AnalysisError("byte machine: division by zero; unclassifiable")
+                # every operand is a determined value of this point of the scenario space: the function, run on this
+                # state, divides by zero (a fact a rule may report; like any AnalysisError when nobody asks for it)
+                raise _DivisionByZero("byte machine: division by zero; unclassifiable", ctext(n)[:80])
             q = abs(a) // abs(b) * (1 if (a < 0) == (b < 0) else -1)
             return self._wrap(q if op == "/" else a - b * q, n)
         if op in ("<<", ">>") and not 0 <= b < 64:
@@ -4378,10 +4444,16 @@ def _takeover_scenarios(bm, flat, live, pend, flag, pflag, h0, ph0):
     el = bm.sizeof(sub["ma"][1][1])[0]
     ext = sub["ma"][1][2]
     h0f = bm.flat_fields(flat[h0][1][1])
+    nd = sub["n"][1]
+    nbits = 64 if nd is None or nd[0] != "int" else nd[3] if len(nd) > 3 else 8 * nd[1]
     for old_h in (0, 1):
         for new_h in (0, 1):
             for pn in (range(1, ext + 1) if new_h else (0,)):
+                if pn >> nbits:
+                    continue                                   # not a value the member holds (R16 decides its width)
                 for on in ((0, 1, ext) if old_h or new_h else (0,)):
+                    if on >> nbits:
+                        continue
                     mem = {}
                     for name, (o, fd) in flat.items():
                         if fd is not None and fd[0] == "int":
@@ -4641,6 +4713,59 @@ def _l1ctl_run(tu, fd, rec, frame, before=None, extern=None):
     bm.background = background
     bm.run(fd, [("p", "msg", 0, pd)])
     return bm
+
+
+DESC_DOMAIN = {"hsn": (63, "HSN 0..63"), "maio": (63, "MAIO 0..63"), "n": (64, "N 1..64 (the number of channels of the allocation)"),
+               "ma": (0xFFFF, "the 16-bit channel numbers L1CTL carries (ARFCN 0..1023 with the band flags ARFCN_PCS = 0x8000, "
+                              "ARFCN_UPLINK = 0x4000)")}
+
+
+def r16_descriptor_widths(L):
+    """C07.R16 decides a necessary condition of the clause "for every hopping sequence number 0..63, MAIO, mobile allocation of
+    1..64 channels ... the selected channel is MA[MAI]" on the firmware side: rfch_get_params() computes MAI from the members
+    of the hopping descriptor (struct l1s_h1: hsn, maio, n, ma[]) and nothing else, so every member must be able to HOLD every
+    value of its domain -- HSN 0..63 and MAIO 0..63 (6 value bits), N 1..64 (7 value bits: 64 itself is in the domain),
+    the entries of MA (16 bits).  The number of value bits is taken from the declaration by value: the folded width of a
+    bit-field (clang: isBitfield, the width is the declaration's constant expression), otherwise 8 * sizeof of the declared
+    integer type; one bit less for a signed member.  A member narrower than its domain stores some configured value as
+    another one (n:6 keeps 64 as 0), so rfch_get_params() cannot select MA[MAI] for that configuration whatever the generator
+    does; wider members, other integer types and bit-fields that are wide enough are silent.  A member that is not an integer
+    (or an array of integers) is ANALYSIS-ERROR."""
+    rule = "C07.R16"
+    head = _layer1_tu(L, "rfch.c")
+    L.unit(F_SYNC_H)
+    rec = head.records.get(DESC)
+    if rec is None or not kids(rec):
+        raise AnalysisError("struct %s is not defined in the translation unit of rfch.c; unclassifiable" % DESC)
+    bm = _ByteMachine(head)
+    seen = 0
+    for i, c in enumerate(kids(rec)):
+        if kind(c) != "FieldDecl" or c.get("name") not in DESC_DOMAIN:
+            continue
+        name = c.get("name")
+        hi, what = DESC_DOMAIN[name]
+        d = bm.tdesc(c.get("type"), (rec, i))
+        while d is not None and d[0] == "arr":
+            d = d[1]
+        if d is None or d[0] != "int":
+            raise AnalysisError("struct %s: member `%s` of type %s is not an integer; unclassifiable" % (
+                DESC, name, c.get("type", {}).get("qualType")))
+        bits = 8 * d[1]
+        if c.get("isBitfield"):
+            bits = bitfield_width(head, c)
+            if bits is None:
+                raise AnalysisError("struct %s: the width of the bit-field `%s` does not fold; unclassifiable" % (DESC, name))
+        bits -= 1 if d[2] else 0
+        need = hi.bit_length()
+        seen += 1
+        L.ob(rule, F_SYNC_H, "struct %s" % DESC, "member `%s` of the hopping descriptor holds every value of its domain, %s "
+             "(value bits of the declaration: bit-field width or 8 * sizeof, less the sign bit)" % (name, what),
+             ">= %d value bits" % need, ">= %d value bits" % need if bits >= need else
+             "%d value bits (%s%s): %d is stored as %d" % (bits, c.get("type", {}).get("qualType"),
+                                                           ":%d" % bitfield_width(head, c) if c.get("isBitfield") else "",
+                                                           hi, hi & ((1 << max(bits, 0)) - 1)),
+             bits >= need, head.line(c))
+    L.floor(rule, "members of struct %s with a domain (hsn, maio, n, ma)" % DESC, seen, len(DESC_DOMAIN))
 
 
 def r14_l1ctl_byte_order(L, tier):
@@ -4983,6 +5108,9 @@ def r15_installed_description(L, spec, tier):
             bm.run(obs, [("p", "<time>", 0, pds[i]) if i == tix[0] else ("p", "<arfcn>", 0, pds[i]) if i == aix[0] else 0
                          for i in range(len(ps))])
             return bm.load(("<arfcn>", 0, ("int", 2, False)))
+        except _DivisionByZero as e:
+            # folded on a description of the domain with every operand determined: no channel is selected at all
+            return "divides by zero in `%s` (undefined behaviour, no MA[MAI])" % e.expr
         except AnalysisError as e:
             raise _ObservationSkipped(str(e))
 
@@ -5854,6 +5982,7 @@ def run(L, tier):
     L.stage(r10_c_sequences, L, gen, spec)
     L.stage(r10_c_getter_state, L, gen, spec)
     L.stage(r8_descriptor_writers, L, tier)
+    L.stage(r16_descriptor_widths, L)
     L.stage(r11_takeover, L, tier)
     L.stage(r14_l1ctl_byte_order, L, tier)
     L.stage(r15_installed_description, L, spec, tier)
